@@ -23,6 +23,11 @@ static int pack_file(sqfs_block_processor_t *data,
 	if (ret)
 		goto done;
 
+	if (file_exceeds_block_list(filesize, opt->cfg.block_size)) {
+		ret = SQFS_ERROR_OVERFLOW;
+		goto done;
+	}
+
 	ret = sqfs_istream_open_handle(&in, path, hnd, 0);
 	if (ret)
 		goto done;
